@@ -42,6 +42,13 @@ Proof.
   destruct (Z.leb_spec b l2), (Z.ltb_spec l2 (b + Z.succ (Z.of_nat n))), (Z.eqb_spec l2 b),
     (Z.leb_spec (b + 1) l2), (Z.ltb_spec l2 (b + 1 + Z.of_nat n)); simpl; try reflexivity; lia.
 Qed.
+Lemma inrng_snoc r b n l : inrng r b (S n) l = inrng r b n l || loc_eqb l (r, b + Z.of_nat n).
+Proof.
+  destruct l as [l1 l2]. unfold inrng, loc_eqb; simpl fst; simpl snd. rewrite Nat2Z.inj_succ.
+  destruct (Z.eqb_spec l1 r); simpl; [|reflexivity].
+  destruct (Z.leb_spec b l2), (Z.ltb_spec l2 (b + Z.succ (Z.of_nat n))), (Z.eqb_spec l2 (b + Z.of_nat n)),
+    (Z.ltb_spec l2 (b + Z.of_nat n)); simpl; try reflexivity; lia.
+Qed.
 Lemma inrng_in r b n k : 0 <= k < Z.of_nat n -> inrng r b n (r, b + k) = true.
 Proof. intros. destruct (inrng_spec r b n (r, b + k)); [reflexivity|simpl in *; lia]. Qed.
 Lemma inrng_other_region r b n l : fst l <> r -> inrng r b n l = false.
@@ -453,3 +460,393 @@ Proof.
     + intros u3 s3 H3. eapply st_is_ext; [|exact H3]. intros l. cbv beta.
       destruct (loc_eqb_spec l dst) as [->|]; simpl; [symmetry; assumption|reflexivity].
 Qed.
+
+(* ------------------------------------------------------------------ Array::Data *)
+Section ArrayProofs.
+Variable c : cat.
+Variables mgr isz : Z.
+
+Definition arr_blocks (d : adata) : list (Z * (Z * Z)) :=
+  match a_cap d with
+  | O => []
+  | _ => [(a_items d, (mgr, Z.of_nat (a_cap d) * isz))]
+  end.
+(* the cells of the world: the array's items plus anything outside the heap regions ([ext], e.g. arguments) *)
+Definition arr_occ (d : adata) (ext : loc -> bool) : loc -> bool :=
+  fun l => inrng (a_items d) 0 (a_count d) l || ext l.
+
+(* the abstract state "array d" accounts for exactly: count live cells in its block, one block of capacity*sizeof(Item) *)
+Definition arr_world (d : adata) (ext : loc -> bool) (s : rstate) : Prop :=
+  st_is s (arr_occ d ext) (arr_blocks d) (nextb s) /\
+  (a_cap d = O -> a_count d = O) /\
+  (a_cap d <> O -> 0 <= a_items d < nextb s) /\
+  (forall l, ext l = true -> fst l < 0) /\
+  0 <= nextb s.
+
+Lemma data_deallocate_post d s f bs nb :
+  st_is s f bs nb ->
+  (a_cap d <> O -> find_blk (a_items d) bs = Some (mgr, Z.of_nat (a_cap d) * isz)) ->
+  post (data_deallocate mgr isz d) s
+       (fun _ s' => st_is s' f (match a_cap d with O => bs | _ => remove_blk (a_items d) bs end) nb) (fun _ => False).
+Proof.
+  intros H Hf. unfold data_deallocate. destruct (a_cap d) as [|k] eqn:E.
+  - apply post_ret. exact H.
+  - apply p_dealloc_post; [exact H|]. apply Hf. discriminate.
+Qed.
+
+Lemma old_new_disjoint d ext s l :
+  arr_world d ext s -> inrng (a_items d) 0 (a_count d) l = true -> fst l <> nextb s /\ ext l = false.
+Proof.
+  intros (_ & Hc0 & Hit & Hext & Hnb) Hin.
+  destruct (inrng_spec (a_items d) 0 (a_count d) l) as [[Ea Eb]|]; [|discriminate].
+  assert (a_cap d <> O) by (intros E; rewrite (Hc0 E) in Eb; simpl in Eb; lia).
+  specialize (Hit H). split; [lia|].
+  destruct (ext l) eqn:E; [|reflexivity]. specialize (Hext _ E). lia.
+Qed.
+
+Lemma find_blk_old d ext s p :
+  arr_world d ext s -> a_cap d <> O ->
+  find_blk (a_items d) ((nextb s, p) :: arr_blocks d) = Some (mgr, Z.of_nat (a_cap d) * isz) /\
+  remove_blk (a_items d) ((nextb s, p) :: arr_blocks d) = [(nextb s, p)] /\
+  remove_blk (nextb s) ((nextb s, p) :: arr_blocks d) = arr_blocks d.
+Proof.
+  intros (_ & _ & Hit & _ & _) Hc. specialize (Hit Hc). unfold arr_blocks.
+  destruct (a_cap d) as [|k]; [congruence|]. simpl.
+  destruct (Z.eqb_spec (nextb s) (a_items d)); [lia|]. rewrite !Z.eqb_refl. simpl.
+  destruct (Z.eqb_spec (a_items d) (nextb s)); [lia|]. simpl. auto.
+Qed.
+
+(* the generic shape of Data::Reset with capacity > 0: allocate, run the items-creator (which on success empties the
+   old items and fills [newcount] cells of the new block, and on failure restores the cells), free the old block *)
+Lemma data_reset_post d ext s capacity newcount (creator : Z -> M unit) :
+  arr_world d ext s -> capacity <> O ->
+  (forall s1 bs1,
+      st_is s1 (arr_occ d ext) bs1 (nextb s + 1) ->
+      post (creator (nextb s)) s1
+           (fun _ s2 => st_is s2 (fun l => inrng (nextb s) 0 newcount l || ext l) bs1 (nextb s + 1))
+           (fun s2 => st_is s2 (arr_occ d ext) bs1 (nextb s + 1))) ->
+  post (data_reset mgr isz d capacity newcount creator) s
+       (fun d' s' => arr_world d' ext s' /\ a_count d' = newcount /\ a_cap d' = capacity)
+       (fun s' => arr_world d ext s').
+Proof.
+  intros W Hc Hcr. pose proof W as (H & Hc0 & Hit & Hext & Hnb).
+  unfold data_reset. destruct capacity as [|cap']; [congruence|]. set (capacity := S cap') in *.
+  apply post_bind.
+  eapply post_conseq; [apply (p_alloc_post mgr (Z.of_nat capacity * isz) s _ _ _ H)| |].
+  2:{ intros s' (A & B & C). unfold arr_world. rewrite C. split; [repeat split; auto|]. auto. }
+  intros items s1 [Ei H1]. subst items.
+  set (p := (mgr, Z.of_nat capacity * isz)) in *.
+  apply post_bind. apply post_catch.
+  eapply post_conseq; [apply (Hcr s1 _ H1)| |].
+  - (* creator succeeded: free the old block *)
+    intros u2 s2 H2. apply post_bind.
+    assert (Hf : a_cap d <> O -> find_blk (a_items d) ((nextb s, p) :: arr_blocks d) = Some (mgr, Z.of_nat (a_cap d) * isz)).
+    { intros Hne. apply (find_blk_old d ext s p W Hne). }
+    eapply post_conseq; [apply (data_deallocate_post d s2 _ _ _ H2 Hf)| |intros ? []].
+    intros u3 s3 (A & B & C). apply post_ret.
+    assert (Bl : blocks s3 = [(nextb s, p)]).
+    { rewrite B. destruct (a_cap d) as [|k] eqn:E.
+      - unfold arr_blocks. rewrite E. reflexivity.
+      - apply (find_blk_old d ext s p W). congruence. }
+    split; [|split; reflexivity].
+    unfold arr_world. cbn [a_items a_count a_cap]. rewrite C.
+    split; [split; [exact A|split; [|exact C]]|].
+    + rewrite Bl. reflexivity.
+    + split; [intros E; discriminate|]. split; [intros _; lia|]. split; [exact Hext|lia].
+  - (* creator threw: give the new block back *)
+    intros s2 H2.
+    eapply post_conseq; [apply (p_dealloc_post mgr (nextb s) (Z.of_nat capacity * isz) s2 _ _ _ H2)| |intros ? []].
+    + simpl. rewrite Z.eqb_refl. reflexivity.
+    + intros u3 s3 (A & B & C). unfold arr_world. rewrite C.
+      assert (Bl : blocks s3 = arr_blocks d).
+      { rewrite B. destruct (Nat.eq_dec (a_cap d) O) as [E|E].
+        - unfold arr_blocks. rewrite E. simpl. rewrite Z.eqb_refl. reflexivity.
+        - apply (find_blk_old d ext s p W E). }
+      split; [split; [exact A|split; [exact Bl|exact C]]|].
+      split; [exact Hc0|]. split; [intros Hne; specialize (Hit Hne); lia|]. split; [exact Hext|lia].
+Qed.
+
+(* pvGrow / Shrink *)
+Theorem array_regrow_post d ext s capacity :
+  arr_world d ext s -> capacity <> O ->
+  post (array_regrow c mgr isz d capacity) s
+       (fun d' s' => arr_world d' ext s' /\ a_count d' = a_count d /\ a_cap d' = capacity)
+       (fun s' => arr_world d ext s').
+Proof.
+  intros W Hc. unfold array_regrow. apply (data_reset_post d ext s capacity (a_count d)); auto.
+  intros s1 bs1 H1.
+  eapply post_conseq; [apply (om_relocate_post c (a_items d) 0 (nextb s) 0 (a_count d) s1 _ _ _ H1)| |intros s2 [_ ?]; assumption].
+  - intros k Hk. unfold arr_occ. rewrite (inrng_in (a_items d) 0 (a_count d) k Hk). split; [reflexivity|].
+    destruct (old_new_disjoint d ext s (a_items d, 0 + k) W (inrng_in _ _ _ _ Hk)) as [Hne _].
+    destruct W as (_ & _ & _ & Hext & Hnb).
+    destruct (inrng_spec (a_items d) 0 (a_count d) (nextb s, 0 + k)) as [[Ea _]|]; [simpl in *; congruence|].
+    destruct (ext (nextb s, 0 + k)) eqn:E; [|reflexivity]. specialize (Hext _ E). simpl in Hext. lia.
+  - intros u2 s2 H2. eapply st_is_ext; [|exact H2]. intros l. unfold arr_occ.
+    destruct (inrng (a_items d) 0 (a_count d) l) eqn:Eo; simpl.
+    + destruct (old_new_disjoint d ext s l W Eo) as [Hne He]. rewrite He, orb_false_r.
+      symmetry. apply inrng_other_region. exact Hne.
+    + reflexivity.
+Qed.
+
+(* pvAddBackGrow(ItemCreator): the copy-only path *)
+Theorem array_addback_grow_post d ext s capacity arg :
+  arr_world d ext s -> capacity <> O -> ext arg = true ->
+  post (array_addback_grow c mgr isz d capacity arg) s
+       (fun d' s' => arr_world d' ext s' /\ a_count d' = S (a_count d) /\ a_cap d' = capacity)
+       (fun s' => arr_world d ext s').
+Proof.
+  intros W Hc Ha. unfold array_addback_grow. apply (data_reset_post d ext s capacity (S (a_count d))); auto.
+  intros s1 bs1 H1. pose proof W as (_ & _ & _ & Hext & Hnb).
+  assert (Hnew : forall k, ext (nextb s, k) = false).
+  { intros k. destruct (ext (nextb s, k)) eqn:E; [|reflexivity]. specialize (Hext _ E). simpl in Hext. lia. }
+  assert (Hnew2 : forall k, inrng (a_items d) 0 (a_count d) (nextb s, k) = false).
+  { intros k. destruct (inrng (a_items d) 0 (a_count d) (nextb s, k)) eqn:E; [|reflexivity].
+    destruct (old_new_disjoint d ext s _ W E) as [Hne _]. simpl in Hne. congruence. }
+  eapply post_conseq;
+    [apply (om_relocate_create_post c (a_items d) 0 (nextb s) 0 (a_count d) (nextb s, Z.of_nat (a_count d)) arg s1 _ _ _ H1)| |auto].
+  - intros k Hk. unfold arr_occ. rewrite (inrng_in (a_items d) 0 (a_count d) k Hk), Hnew2, Hnew. split; reflexivity.
+  - unfold arr_occ. rewrite Ha. apply orb_true_r.
+  - unfold arr_occ. rewrite Hnew2, Hnew. reflexivity.
+  - destruct (inrng_spec (nextb s) 0 (a_count d) (nextb s, Z.of_nat (a_count d))) as [[_ Eb]|]; [simpl in Eb; lia|reflexivity].
+  - intros u2 s2 H2. eapply st_is_ext; [|exact H2]. intros l. unfold arr_occ.
+    pose proof (inrng_snoc (nextb s) 0 (a_count d) l) as E. rewrite Z.add_0_l in E.
+    rewrite E.
+    destruct (inrng (a_items d) 0 (a_count d) l) eqn:Eo; simpl.
+    + destruct (old_new_disjoint d ext s l W Eo) as [Hne He]. rewrite He, orb_false_r.
+      rewrite (inrng_other_region (nextb s) 0 (a_count d) l Hne).
+      destruct (loc_eqb_spec l (nextb s, Z.of_nat (a_count d))) as [El|]; [subst l; simpl in Hne; congruence|reflexivity].
+    + reflexivity.
+Qed.
+
+(* Data::pvDestroy = ~Array: zero live cells of the array, zero blocks *)
+Theorem array_destroy_post d ext s :
+  arr_world d ext s ->
+  post (array_destroy mgr isz d) s (fun _ s' => st_is s' ext [] (nextb s)) (fun _ => False).
+Proof.
+  intros W. pose proof W as (H & Hc0 & Hit & Hext & Hnb). unfold array_destroy. apply post_bind.
+  eapply post_conseq; [apply (om_destroy_n_post (a_items d) (a_count d) 0 s _ _ _ H)| |auto].
+  - intros k Hk. unfold arr_occ. rewrite (inrng_in _ _ _ _ Hk). reflexivity.
+  - intros u1 s1 H1.
+    assert (Hf : a_cap d <> O -> find_blk (a_items d) (arr_blocks d) = Some (mgr, Z.of_nat (a_cap d) * isz)).
+    { intros Hne. unfold arr_blocks. destruct (a_cap d); [congruence|]. simpl. rewrite Z.eqb_refl. reflexivity. }
+    eapply post_conseq; [apply (data_deallocate_post d s1 _ _ _ H1 Hf)| |auto].
+    intros u2 s2 (A & B & C). split; [|split; [|assumption]].
+    + intros l. rewrite A. unfold arr_occ. destruct (inrng (a_items d) 0 (a_count d) l) eqn:Eo; simpl; [|reflexivity].
+      destruct (old_new_disjoint d ext s l W Eo) as [_ He]. symmetry. exact He.
+    + rewrite B. unfold arr_blocks. destruct (a_cap d); [reflexivity|]. simpl. rewrite Z.eqb_refl. reflexivity.
+Qed.
+
+(* any operation with the regrow/addback contract, followed by the destructor, whatever the schedule: nothing is left *)
+Theorem array_op_then_destroy_post d ext s (op : M adata) (Qd : adata -> Prop) :
+  arr_world d ext s ->
+  post op s (fun d' s' => arr_world d' ext s' /\ Qd d') (fun s' => arr_world d ext s') ->
+  post (array_op_then_destroy mgr isz d op) s
+       (fun _ s' => st_is s' ext [] (nextb s')) (fun s' => st_is s' ext [] (nextb s')).
+Proof.
+  intros W P. unfold array_op_then_destroy, post in *.
+  destruct (op s) as [[d'| |] s1]; [| |contradiction].
+  - destruct P as [W' _]. pose proof (array_destroy_post d' ext s1 W') as D. unfold post in D.
+    destruct (array_destroy mgr isz d' s1) as [[u| |] s2]; try contradiction.
+    destruct D as (A & B & C). rewrite C. repeat split; auto.
+  - pose proof (array_destroy_post d ext s1 P) as D. unfold post in D.
+    destruct (array_destroy mgr isz d s1) as [[u| |] s2]; try contradiction.
+    destruct D as (A & B & C). rewrite C. repeat split; auto.
+Qed.
+
+End ArrayProofs.
+
+(* ------------------------------------------------------------------ constructor catch blocks *)
+Definition is_stuck {A} (r : outcome A * rstate) : bool := match r with (Stuck, _) => true | _ => false end.
+
+(* The constructor shape BEFORE fix 806b9fe (the catch block calls pvDestroy() and leaves mBuckets / mNodeParams dangling;
+   the destructor of the delegating constructor then runs pvDestroy() again): with 3 items and the first item copy
+   failing, the second pvDestroy touches the freed bucket array - the machine is Stuck (use after free / double destroy). *)
+Theorem ctor_double_destroy_refuted :
+  exists (sch : list bool) (n : nat),
+    is_stuck (hs_copy_then_destroy 1 64 16 24 false (-1) n (init_state (-1) (Z.of_nat n) sch)) = true /\
+    is_stuck (ts_copy_then_destroy 1 24 96 168 false (-1) n (init_state (-1) (Z.of_nat n) sch)) = true.
+Proof. exists [false; false; false; true], 3%nat. split; vm_compute; reflexivity. Qed.
+
+(* ... and the same schedules on the shape AFTER the fix end with an exception, zero live blocks, and only the source cells *)
+Definition clean_after (r : outcome unit * rstate) (n : Z) : bool :=
+  match r with
+  | (Stuck, _) => false
+  | (_, s') => match blocks s' with [] => true | _ => false end &&
+               forallb (fun l => Bool.eqb (occ (cells s' l)) (occ (init_cells (-1) n l)))
+                       (flat_map (fun r => map (fun i => (r, Z.of_nat i)) (seq 0 8)) [-1; 0; 1; 2; 3; 4])
+  end.
+
+(* every schedule of length <= 10 (1023 schedules... enumerated as "first failure at k") x every n <= 6: finite sanity sweep *)
+Fixpoint sched_fail_at (k : nat) : list bool := match k with O => [true] | S k' => false :: sched_fail_at k' end.
+Definition ctor_sweep (fixed : bool) : bool :=
+  forallb (fun n => forallb (fun k =>
+      let sch := if Nat.eqb k 12 then [] else sched_fail_at k in
+      clean_after (hs_copy_then_destroy 1 64 16 24 fixed (-1) n (init_state (-1) (Z.of_nat n) sch)) (Z.of_nat n) &&
+      clean_after (ts_copy_then_destroy 1 24 96 168 fixed (-1) n (init_state (-1) (Z.of_nat n) sch)) (Z.of_nat n))
+    (seq 0 13)) (seq 0 7).
+Example ctor_fixed_sweep : ctor_sweep true = true.
+Proof. vm_compute. reflexivity. Qed.
+Example ctor_prefix_sweep_fails : ctor_sweep false = false.
+Proof. vm_compute. reflexivity. Qed.
+
+Section CtorProofs.
+Variables mgr bufsz parsz crewsz nodesz tparsz : Z.
+
+Definition fresh (bs : list (Z * (Z * Z))) (nb : Z) : Prop := forall b p, In (b, p) bs -> b < nb.
+
+Lemma remove_blk_fresh bs nb b : fresh bs nb -> nb <= b -> remove_blk b bs = bs.
+Proof.
+  unfold fresh, remove_blk. induction bs as [|[b' p] bs IH]; intros Hf Hb; simpl; [reflexivity|].
+  destruct (Z.eqb_spec b' b) as [E|E]; simpl.
+  - specialize (Hf b' p (or_introl eq_refl)). lia.
+  - f_equal. apply IH; [|assumption]. intros b0 p0 Hin. apply (Hf b0 p0). right. exact Hin.
+Qed.
+
+Lemma fresh_cons b p bs nb : fresh bs nb -> b < nb + 1 -> fresh ((b, p) :: bs) (nb + 1).
+Proof.
+  intros Hf Hb b' p' [E|Hin]; [inversion E; subst; lia|]. specialize (Hf _ _ Hin). lia.
+Qed.
+
+Lemma fresh_mono bs nb nb' : fresh bs nb -> nb <= nb' -> fresh bs nb'.
+Proof. intros Hf Hle b p Hin. specialize (Hf _ _ Hin). lia. Qed.
+
+(* a world in which everything at or above the next block id is untouched *)
+Definition fresh_world (s : rstate) (f : loc -> bool) (bs : list (Z * (Z * Z))) : Prop :=
+  st_is s f bs (nextb s) /\ fresh bs (nextb s) /\ (forall l, nextb s <= fst l -> f l = false).
+
+(* HashSetBuckets::Create *)
+Lemma buckets_create_post s f bs nb :
+  st_is s f bs nb -> fresh bs nb ->
+  post (buckets_create mgr bufsz parsz) s
+       (fun bp s' => bp = (nb, nb + 1) /\ st_is s' f ((nb + 1, (mgr, parsz)) :: (nb, (mgr, bufsz)) :: bs) (nb + 2))
+       (fun s' => exists nb', nb <= nb' /\ st_is s' f bs nb').
+Proof.
+  intros H Hf. unfold buckets_create. apply post_bind.
+  eapply post_conseq; [apply (p_alloc_post mgr bufsz s f bs nb H)| |intros s' H'; exists nb; split; [lia|exact H']].
+  intros buf s1 [Eb H1]. subst buf. apply post_bind. apply post_catch.
+  eapply post_conseq; [apply (p_alloc_post mgr parsz s1 _ _ _ H1)| |].
+  - intros par s2 [Ep H2]. subst par. apply post_ret. split; [reflexivity|].
+    replace (nb + 2) with (nb + 1 + 1) by lia. exact H2.
+  - intros s2 H2.
+    eapply post_conseq; [apply (p_dealloc_post mgr nb bufsz s2 _ _ _ H2)| |intros ? []].
+    + simpl. rewrite Z.eqb_refl. reflexivity.
+    + intros u s3 H3. exists (nb + 1). split; [lia|].
+      simpl in H3. rewrite Z.eqb_refl in H3. simpl in H3. rewrite (remove_blk_fresh bs nb nb Hf) in H3 by lia. exact H3.
+Qed.
+
+(* HashSet::pvDestroy on a non-null mBuckets with [fill] constructed items *)
+Lemma hs_pv_destroy_post b0 fill s f bs nb :
+  st_is s f ((b0 + 1, (mgr, parsz)) :: (b0, (mgr, bufsz)) :: bs) nb -> fresh bs b0 ->
+  (forall k, 0 <= k < Z.of_nat fill -> f (b0, 0 + k) = true) ->
+  post (hs_pv_destroy mgr bufsz parsz (mkH (Some (b0, b0 + 1)) fill)) s
+       (fun _ s' => st_is s' (fun l => negb (inrng b0 0 fill l) && f l) bs nb) (fun _ => False).
+Proof.
+  intros H Hf Hfill. unfold hs_pv_destroy. cbn [h_buckets h_fill].
+  assert (Hne : Z.eqb (b0 + 1) b0 = false) by (destruct (Z.eqb_spec (b0 + 1) b0); [lia|reflexivity]).
+  apply post_bind.
+  eapply post_conseq; [apply (p_touch_post b0 s _ _ _ (mgr, bufsz) H)| |auto].
+  { simpl. rewrite Hne, Z.eqb_refl. reflexivity. }
+  intros u1 s1 H1. apply post_bind.
+  eapply post_conseq; [apply (om_destroy_n_post b0 fill 0 s1 _ _ _ H1 Hfill)| |auto].
+  intros u2 s2 H2. apply post_bind.
+  eapply post_conseq; [apply (p_dealloc_post mgr (b0 + 1) parsz s2 _ _ _ H2)| |auto].
+  { simpl. rewrite Z.eqb_refl. reflexivity. }
+  intros u3 s3 H3.
+  assert (E3 : remove_blk (b0 + 1) ((b0 + 1, (mgr, parsz)) :: (b0, (mgr, bufsz)) :: bs) = (b0, (mgr, bufsz)) :: bs).
+  { simpl. rewrite Z.eqb_refl. simpl.
+    destruct (Z.eqb_spec b0 (b0 + 1)); [lia|]. simpl. f_equal. apply (remove_blk_fresh bs b0); [assumption|lia]. }
+  rewrite E3 in H3.
+  eapply post_conseq; [apply (p_dealloc_post mgr b0 bufsz s3 _ _ _ H3)| |auto].
+  { simpl. rewrite Z.eqb_refl. reflexivity. }
+  intros u4 s4 H4. simpl in H4. rewrite Z.eqb_refl in H4. simpl in H4.
+  rewrite (remove_blk_fresh bs b0 b0 Hf) in H4 by lia. exact H4.
+Qed.
+
+(* HashSet(const HashSet&, MemManager) as it is after fix 806b9fe *)
+Lemma hs_copy_ctor_spec sr n s f bs :
+  fresh_world s f bs -> (forall k, 0 <= k < Z.of_nat n -> f (sr, 0 + k) = true) ->
+  match hs_copy_ctor mgr bufsz parsz true sr n s with
+  | ((h, Val _), s') =>
+      (n = O /\ h = mkH None O /\ st_is s' f bs (nextb s) ) \/
+      (n <> O /\ h = mkH (Some (nextb s, nextb s + 1)) n /\
+       st_is s' (fun l => inrng (nextb s) 0 n l || f l)
+             ((nextb s + 1, (mgr, parsz)) :: (nextb s, (mgr, bufsz)) :: bs) (nextb s + 2))
+  | ((h, Exc), s') => h_buckets h = None /\ exists nb', nextb s <= nb' /\ st_is s' f bs nb'
+  | ((_, Stuck), _) => False
+  end.
+Proof.
+  intros (H & Hf & Hcl) Hsrc. unfold hs_copy_ctor. destruct n as [|n'].
+  - left. auto.
+  - set (n := S n') in *.
+    pose proof (buckets_create_post s f bs (nextb s) H Hf) as P. unfold post in P.
+    destruct (buckets_create mgr bufsz parsz s) as [[[buf par]| |] s1]; [| |contradiction].
+    2:{ split; [reflexivity|exact P]. }
+    destruct P as [Ebp H1]. inversion Ebp; subst buf par. clear Ebp.
+    set (nb := nextb s) in *.
+    assert (Hr : forall k, 0 <= k < Z.of_nat n -> f (sr, 0 + 0 + k) = true /\ f (nb, 0 + 0 + k) = false).
+    { intros k Hk. split; [apply Hsrc; assumption|]. apply Hcl. simpl. lia. }
+    pose proof (om_copy_loop_post sr 0 nb 0 n 0 s1 f _ _ H1 Hr) as L.
+    destruct (om_copy_loop sr 0 nb 0 0 n s1) as [[idx o] s2].
+    destruct o as [u| |]; [| |contradiction].
+    + right. destruct L as [_ S2]. split; [discriminate|]. split; [reflexivity|]. exact S2.
+    + destruct L as [Hi S2]. rewrite Z.add_0_l, Z.sub_0_r in S2.
+      assert (Hfr : fresh bs nb) by exact Hf.
+      pose proof (hs_pv_destroy_post nb (Z.to_nat idx) s2 _ bs (nb + 2) S2 Hfr) as D.
+      assert (Hfill : forall k, 0 <= k < Z.of_nat (Z.to_nat idx) ->
+                 (fun l => inrng nb 0 (Z.to_nat idx) l || f l) (nb, 0 + k) = true).
+      { intros k Hk. cbv beta. rewrite (inrng_in nb 0 (Z.to_nat idx) k Hk). reflexivity. }
+      specialize (D Hfill). unfold post in D.
+      destruct (hs_pv_destroy mgr bufsz parsz {| h_buckets := Some (nb, nb + 1); h_fill := Z.to_nat idx |} s2)
+        as [[u| |] s3]; try contradiction.
+      split; [reflexivity|]. exists (nb + 2). split; [lia|].
+      eapply st_is_ext; [|exact D]. apply undo_dst. intros k Hk. apply Hcl. simpl. lia.
+Qed.
+
+Theorem hs_copy_then_destroy_post sr n s f bs :
+  fresh_world s f bs -> (forall k, 0 <= k < Z.of_nat n -> f (sr, 0 + k) = true) ->
+  post (hs_copy_then_destroy mgr bufsz parsz crewsz true sr n) s
+       (fun _ s' => st_is s' f bs (nextb s')) (fun s' => st_is s' f bs (nextb s')).
+Proof.
+  intros W Hsrc. pose proof W as (H & Hf & Hcl). unfold hs_copy_then_destroy, post.
+  pose proof (p_alloc_post mgr crewsz s f bs (nextb s) H) as P0. unfold post in P0.
+  destruct (p_alloc mgr crewsz s) as [[crew| |] s0]; [| |contradiction].
+  2:{ destruct P0 as (A & B & C). rewrite C. repeat split; auto. }
+  destruct P0 as [Ec S0]. subst crew. set (nb := nextb s) in *.
+  assert (N0 : nextb s0 = nb + 1) by (destruct S0 as (_ & _ & C); exact C).
+  assert (W0 : fresh_world s0 f ((nb, (mgr, crewsz)) :: bs)).
+  { split; [rewrite N0; exact S0|]. split.
+    - rewrite N0. apply fresh_cons; [exact Hf|lia].
+    - intros l Hl. apply Hcl. fold nb. lia. }
+  pose proof (hs_copy_ctor_spec sr n s0 f _ W0 Hsrc) as C.
+  destruct (hs_copy_ctor mgr bufsz parsz true sr n s0) as [[h o] s1].
+  assert (Fin : forall s1' nb', st_is s1' f ((nb, (mgr, crewsz)) :: bs) nb' ->
+            match p_dealloc mgr nb crewsz s1' with
+            | (Val _, s2) => st_is s2 f bs (nextb s2)
+            | (Exc, s2) => st_is s2 f bs (nextb s2)
+            | (Stuck, _) => False
+            end).
+  { intros s1' nb' H1'. pose proof (p_dealloc_post mgr nb crewsz s1' _ _ _ H1') as D. unfold post in D.
+    assert (Hfd : find_blk nb ((nb, (mgr, crewsz)) :: bs) = Some (mgr, crewsz)) by (simpl; rewrite Z.eqb_refl; reflexivity).
+    specialize (D Hfd). destruct (p_dealloc mgr nb crewsz s1') as [[u| |] s2]; try contradiction.
+    simpl in D. rewrite Z.eqb_refl in D. simpl in D. rewrite (remove_blk_fresh bs nb nb Hf) in D by lia.
+    destruct D as (A & B & Cn). rewrite Cn. repeat split; auto. }
+  destruct o as [u| |]; [| |contradiction].
+  - destruct C as [(En & Eh & S1)|(En & Eh & S1)]; subst h.
+    + (* empty source *) unfold bind, hs_pv_destroy, ret. cbn [h_buckets].
+      specialize (Fin s1 _ S1). destruct (p_dealloc mgr nb crewsz s1) as [[u'| |] s2]; try contradiction; exact Fin.
+    + rewrite N0 in S1.
+      pose proof (hs_pv_destroy_post (nb + 1) n s1 _ ((nb, (mgr, crewsz)) :: bs) _ S1) as D.
+      assert (Hfr : fresh ((nb, (mgr, crewsz)) :: bs) (nb + 1)) by (apply fresh_cons; [exact Hf|lia]).
+      assert (Hfill : forall k, 0 <= k < Z.of_nat n -> (fun l => inrng (nb + 1) 0 n l || f l) (nb + 1, 0 + k) = true).
+      { intros k Hk. cbv beta. rewrite (inrng_in (nb + 1) 0 n k Hk). reflexivity. }
+      rewrite N0. specialize (D Hfr Hfill). unfold post in D. unfold bind.
+      destruct (hs_pv_destroy mgr bufsz parsz {| h_buckets := Some (nb + 1, nb + 1 + 1); h_fill := n |} s1)
+        as [[u'| |] s2]; try contradiction.
+      assert (S2 : st_is s2 f ((nb, (mgr, crewsz)) :: bs) (nb + 1 + 2)).
+      { eapply st_is_ext; [|exact D]. apply undo_dst. intros k Hk. apply Hcl. simpl. fold nb. lia. }
+      specialize (Fin s2 _ S2). destruct (p_dealloc mgr nb crewsz s2) as [[u''| |] s3]; try contradiction; exact Fin.
+  - destruct C as [Eh (nb' & Hle & S1)]. unfold bind, hs_pv_destroy, ret. rewrite Eh.
+    specialize (Fin s1 _ S1). destruct (p_dealloc mgr nb crewsz s1) as [[u'| |] s2]; try contradiction; exact Fin.
+Qed.
+
+End CtorProofs.
